@@ -127,6 +127,7 @@ class World(object):
         self.ns.a = None
         self.ns.b = Namespace()
         self.ns.b.c = None
+        self.ns.b.get3 = lambda a, b, c: self.lst
         self.d = {}
         self.i0 = 0
         self.key = "k"
@@ -199,6 +200,9 @@ class World(object):
         return out
 
     def get(self, i):
+        return self.lst
+
+    def get2(self, a, b):
         return self.lst
 
     # -- frame records --
